@@ -18,9 +18,10 @@ EXTENDS Naturals, FiniteSets, Sequences, TLC
 CONSTANTS Files, Versions, Clients, MaxEdits, MaxSignals
 
 VARIABLES disk, current, reload, loaded, toLoad, pendingSig, writerWaiting, readers,
-          client, answers, edits, signals
+          client, answers, edits, signals,
+          settled     \* history: a SIGUSR1 was sent after the last edit of the disk (nothing changed since)
 
-vars == <<disk, current, reload, loaded, toLoad, pendingSig, writerWaiting, readers, client, answers, edits, signals>>
+vars == <<disk, current, reload, loaded, toLoad, pendingSig, writerWaiting, readers, client, answers, edits, signals, settled>>
 
 Bad == 99
 
@@ -37,17 +38,20 @@ Init ==
     /\ answers = {}               \* [cfg (what the reply showed), allowed (configurations current during the request)]
     /\ edits = 0
     /\ signals = 0
+    /\ settled = TRUE              \* the server starts from what is on disk
 
 Edit(f, v) ==
     /\ edits < MaxEdits
     /\ disk' = [disk EXCEPT ![f] = v]
     /\ edits' = edits + 1
+    /\ settled' = FALSE
     /\ UNCHANGED <<current, reload, loaded, toLoad, pendingSig, writerWaiting, readers, client, answers, signals>>
 
 Signal ==
     /\ signals < MaxSignals
     /\ signals' = signals + 1
-    /\ pendingSig' = TRUE
+    /\ pendingSig' = TRUE           \* tokio's signal stream coalesces: one notification however many signals
+    /\ settled' = TRUE
     /\ UNCHANGED <<disk, current, reload, loaded, toLoad, writerWaiting, readers, client, answers, edits>>
 
 StartReload ==
@@ -55,7 +59,7 @@ StartReload ==
     /\ pendingSig' = FALSE
     /\ reload' = "loading"
     /\ toLoad' = Files
-    /\ UNCHANGED <<disk, current, loaded, writerWaiting, readers, client, answers, edits, signals>>
+    /\ UNCHANGED <<disk, current, loaded, writerWaiting, readers, client, answers, edits, signals, settled>>
 
 \* one file is read; a bad file ends the reload without touching the configuration
 LoadFile(f) ==
@@ -66,7 +70,7 @@ LoadFile(f) ==
             /\ toLoad' = toLoad \ {f}
             /\ IF toLoad' = {} THEN reload' = "swapping" /\ writerWaiting' = TRUE
                ELSE UNCHANGED <<reload, writerWaiting>>
-    /\ UNCHANGED <<disk, current, pendingSig, readers, client, answers, edits, signals>>
+    /\ UNCHANGED <<disk, current, pendingSig, readers, client, answers, edits, signals, settled>>
 
 \* the write lock is granted when no reader holds the lock
 Swap ==
@@ -76,26 +80,26 @@ Swap ==
     /\ writerWaiting' = FALSE
     /\ client' = [c \in Clients |-> IF client[c].state = "waiting"
                                      THEN [client[c] EXCEPT !.since = @ \cup {loaded}] ELSE client[c]]
-    /\ UNCHANGED <<disk, loaded, toLoad, pendingSig, readers, answers, edits, signals>>
+    /\ UNCHANGED <<disk, loaded, toLoad, pendingSig, readers, answers, edits, signals, settled>>
 
 \* a request arrives; it gets the read lock unless a writer waits (then it queues behind the writer)
 Arrive(c) ==
     /\ client[c].state = "idle"
     /\ client' = [client EXCEPT ![c] = [state |-> "waiting", saw |-> <<>>, since |-> {current}]]
-    /\ UNCHANGED <<disk, current, reload, loaded, toLoad, pendingSig, writerWaiting, readers, answers, edits, signals>>
+    /\ UNCHANGED <<disk, current, reload, loaded, toLoad, pendingSig, writerWaiting, readers, answers, edits, signals, settled>>
 
 Acquire(c) ==
     /\ client[c].state = "waiting" /\ ~writerWaiting
     /\ readers' = readers \cup {c}
     /\ client' = [client EXCEPT ![c].state = "reading", ![c].saw = current]
-    /\ UNCHANGED <<disk, current, reload, loaded, toLoad, pendingSig, writerWaiting, answers, edits, signals>>
+    /\ UNCHANGED <<disk, current, reload, loaded, toLoad, pendingSig, writerWaiting, answers, edits, signals, settled>>
 
 Reply(c) ==
     /\ client[c].state = "reading"
     /\ readers' = readers \ {c}
     /\ answers' = answers \cup {[cfg |-> client[c].saw, allowed |-> client[c].since]}
     /\ client' = [client EXCEPT ![c] = [state |-> "idle", saw |-> <<>>, since |-> {}]]
-    /\ UNCHANGED <<disk, current, reload, loaded, toLoad, pendingSig, writerWaiting, edits, signals>>
+    /\ UNCHANGED <<disk, current, reload, loaded, toLoad, pendingSig, writerWaiting, edits, signals, settled>>
 
 Next ==
     \/ \E f \in Files, v \in Versions \cup {Bad} : Edit(f, v)
@@ -114,6 +118,14 @@ Inv_C19_Whole == \A f \in Files : current[f] # Bad /\ current[f] # 0
 \* C19: a reload that meets a bad file leaves the configuration as it was (action property)
 Prop_C19_AllOrNothing ==
     [][(current' # current) => (reload = "swapping" /\ current' = loaded)]_vars
+\* C19: "if every file loads, later answers reflect the new files only": once a signal has been sent after the last
+\* edit, the reload task has come to rest and every file on disk is good, the configuration in force IS the disk.
+\* (A signal that arrives while a reload is loading is not lost: the stream keeps one pending notification and the
+\* task reloads again; a model in which StartReload consumed the notification at the END of a reload fails this.)
+AtRest == reload = "idle" /\ ~pendingSig
+Inv_C19_Fresh == (settled /\ AtRest /\ \A f \in Files : disk[f] # Bad) => current = disk
+\* convergence: a settled, good disk is eventually in force (needs the fairness of the reload task and of readers)
+Prop_C19_Converges == [](settled /\ (\A f \in Files : disk[f] # Bad) => <>(current = disk \/ ~settled))
 \* C19: the server keeps answering: a request that arrived is eventually answered
 Prop_C19_Live == \A c \in Clients : (client[c].state # "idle") ~> (client[c].state = "idle")
 
